@@ -66,6 +66,8 @@ class Prop:
         off = rng.choice([None, None, None, 37, 123, 411])
         if off:
             sc["sub2_t"] = 205 + off
+        from simlib import multi
+        multi.gen_feedback(rng, sc, src, p=0.15)  # a consumer that pushes a follow-up element into the (hot) source
         return sc
 
     def build(self, w, sc):
@@ -134,6 +136,7 @@ class Prop:
                 out.probes["age_equals_duration"] += 1
                 o1 = o2
         out.viol, out.probes = o1.viol, out.probes + o1.probes
+        out.faults.update(o1.faults)
         out.sim_time, out.nontrivial = o1.sim_time, o1.nontrivial
         out.digest = (sc["form"], sc["d"], rec.kinds(), tuple(e[1] for e in rec.events))
         out.info = {"form": sc["form"], "d": sc["d"], "got": rec.kinds()}
